@@ -309,3 +309,36 @@ Fixpoint pull_seq (aheadA aheadB : nat) (which : list bool) (ra rb : mreader) (s
       let '(res, rb', src') := pull aheadB rb src in
       let '(rs, fin) := pull_seq aheadA aheadB w ra rb' src' in (res :: rs, fin)
   end.
+
+(* ======================================================================================== *)
+(* What the CALLERS of ReadMsg get.  Every ReadMsg call starts a goroutine that takes the msgio
+   reader lock and blocks for the next frame; requests are therefore served with the delivered
+   frames in the order the calls were made.  A call whose context ends while its request is
+   pending returns ctx.Err(), but its goroutine keeps its place: the frame it eventually gets is
+   put into a channel nobody reads (lost).  [serve] = (frames handed to callers, frames lost).
+   (Order among several pending goroutines = lock queue order; exact for one pending goroutine.) *)
+Inductive req := ReqRead | ReqAbandoned.
+Fixpoint serve (reqs : list req) (frames : list bytes) : list bytes * list bytes :=
+  match reqs, frames with
+  | ReqRead :: r, f :: fs => let '(c, l) := serve r fs in (f :: c, l)
+  | ReqAbandoned :: r, f :: fs => let '(c, l) := serve r fs in (c, f :: l)
+  | _, _ => ([], [])
+  end.
+Definition no_abandon (reqs : list req) : bool :=
+  forallb (fun r => match r with ReqRead => true | ReqAbandoned => false end) reqs.
+
+(* the same on the write side: a WriteMsg given up through its context has returned ctx.Err(),
+   but its goroutine still hands the frame to the network stream once it gets the writer lock *)
+Inductive wcall := WCompleted | WGivenUp.
+Definition wire_of_calls (ws : list (wcall * bytes)) : list bytes :=
+  map (fun w => frame (enc_streammsg (BData (snd w)))) ws.
+
+(* what a caller of ReadMsg(ctx, m) can see of one frame: does the call return nil, and was the
+   destination m reset/overwritten.  [inner_ok p] = proto.Unmarshal(p, m) succeeds. *)
+Record read_view := { returns_nil : bool; dest_touched : bool }.
+Definition view_of (inner_ok : bytes -> bool) (r : rres) : read_view :=
+  match r with
+  | RData p => {| returns_nil := inner_ok p; dest_touched := true |}
+  | ROkNoData => {| returns_nil := true; dest_touched := false |}
+  | _ => {| returns_nil := false; dest_touched := false |}
+  end.
